@@ -19,11 +19,16 @@ def GetByClientID : List String := ["mu.RLock", "mu.RUnlock"]
 def KickOldConnection : List String := ["mu.Lock", "unindexLocked", "delete", "mu.Unlock", "sendKickFn", "stream.Close"]
 def Register : List String := ["mu.Lock", "mu.Unlock", "findOldestConnectionLocked", "removeConnectionLocked", "removeConnectionLocked"]
 def Remove : List String := ["mu.Lock", "mu.Unlock", "removeConnectionLocked"]
-def RemoveControlConnection : List String := ["clientRegistry.GetByConnID", "clientRegistry.Remove"]
+def RemoveControlConnection : List String := ["clientRegistry.GetByConnID", "clientRegistry.Remove", "cloudControl.DisconnectClientIfMatch"]
 def TunnelRemove : List String := ["mu.Lock", "mu.Unlock", "delete", "delete"]
 def Unregister : List String := ["mu.Lock", "mu.Unlock", "unindexLocked", "delete"]
 def UpdateAuth : List String := ["mu.Lock", "mu.Unlock", "unindexLocked"]
-def cleanupStaleConnections : List String := ["clientRegistry.CleanupStale", "CloseConnection"]
+def adapterCleanupConnection : List String := ["session.CloseConnection", "closer.Close"]
+def adapterHandleConnection : List String := ["cleanupConnection", "initializeConnection", "connectionReadLoop"]
+def adapterHandlePacket : List String := ["session.HandlePacket"]
+def adapterInitializeConnection : List String := ["session.AcceptConnection"]
+def adapterReadLoop : List String := ["checkAndHandleStreamMode", "readPacketWithTimeout", "handlePacketAndCheckModeSwitch"]
+def cleanupStaleConnections : List String := ["clientRegistry.CleanupStale", "cloudControl.DisconnectClientIfMatch", "CloseConnection"]
 def handleHandshake : List String := ["getControlConnectionByConnID", "getConnectionByConnID", "RegisterControlConnection", "getControlConnectionByConnID", "getConnectionByConnID", "RegisterControlConnection", "authHandler.HandleHandshake", "sendHandshakeResponse", "clientRegistry.DropStaleIndex", "sendHandshakeResponse", "clientRegistry.GetByClientID", "clientRegistry.Remove", "clientRegistry.UpdateAuth", "getConnectionByConnID", "getConnectionByConnID"]
 def handleHeartbeat : List String := ["clientRegistry.GetByConnID", "UpdateActivity"]
 def removeConnectionLocked : List String := ["Stream.Close", "unindexLocked", "delete"]
@@ -36,8 +41,10 @@ def CloseConnection : List String := ["if exists", "if conn != nil", "if conn.St
 def DropStaleIndex : List String := ["if conn == nil", "range r.clientIDMap", "if indexed == conn && clientID != conn.ClientID"]
 def KickOldConnection : List String := ["if oldConn != nil && oldConn.ConnID != newConnID", "if connInfo != nil", "if sendKickFn != nil && oldConnForCallback != nil", "if connInfo.stream != nil"]
 def Register : List String := ["if conn == nil", "if conn.ConnID == \"\"", "if r.maxConnections > 0 && len(r.connMap) >= r.maxConnections", "if oldestConn != nil", "if existing, exists := r.connMap[conn.ConnID]; exists", "if conn.Authenticated && conn.ClientID > 0"]
+def RemoveControlConnection : List String := ["if conn != nil", "if authenticated && clientID > 0 && s.cloudControl != nil", "if err != nil", "if disconnected"]
 def Unregister : List String := ["if !exists"]
 def UpdateAuth : List String := ["if !exists"]
+def adapterCleanupConnection : List String := ["if state.streamConn != nil", "if state.streamConn != nil && b.session != nil", "if state.shouldCloseConn", "if closer, ok := conn.(interface{ Close() error }); ok"]
 def findOldestConnectionLocked : List String := ["range r.connMap", "if oldestConn == nil || conn.CreatedAt.Before(oldestTime)"]
 def removeConnectionLocked : List String := ["if conn == nil", "if conn.Stream != nil"]
 def unindexLocked : List String := ["range r.clientIDMap", "if indexed == conn"]
